@@ -190,7 +190,19 @@ def main():
         rp = write_replay(ctx, body)
         lines.append(f"VIOLATION property={pid} replay={rp} no-failing-input-found")
         exit_code = 1
-    # known findings that are always announced (their witnesses run in the corpus)
+    # listed known findings of this property: run each witness; announce it while it reproduces
+    for kf in known.get("known", []):
+        if kf["property"] != pid:
+            continue
+        try:
+            still = props.known_reproduces(cfg, kf)
+        except Exception as e:  # noqa
+            still = None
+            print(f"note: witness of known finding {kf.get('signature')} could not be run: {e}")
+        if still:
+            lines.insert(0, f"KNOWN-FINDING: property={pid} {kf['what']}")
+        elif still is False:
+            print(f"note: known finding {kf.get('signature')} no longer reproduces on this tree")
     for l in lines:
         print(l)
 
